@@ -201,7 +201,8 @@ void rewrite_loop_in_place(Chunk *keyword, E_Token desired_type, const char *des
 
 static Chunk *find_start_brace(Chunk *pc)
 {
-   while (!pc->IsBraceOpen())
+   while (  pc->IsNotNullChunk()
+         && !pc->IsBraceOpen())
    {
       pc = pc->GetNextNcNnl();
    }
